@@ -121,14 +121,14 @@ class MultiFile:
         self.lctx = LanguageContextBuilder(include_experimental_languages=True).set_target_language("cpp").create()
         self.n = 0
 
-    def run(self, texts, ppdesc, order):
+    def run(self, texts, ppdesc, order, out=None, keep=False):
         """texts: {"A": chunks, "B": chunks, "support": chunks}; order: sequence of "types" / "support" generator runs.
-        returns [(name, chunks, file text)] in the order the files were written"""
+        returns [(name, chunks, file text)] in the order the files were written.  out / keep: regenerate in place over what an earlier run left"""
         import nunavut
         from nunavut._generators import create_default_generators
 
         self.n += 1
-        out = self.root / ("out%d" % self.n)
+        out = out or self.root / ("out%d" % self.n)
         ns = nunavut.build_namespace_tree(self.types, str(self.root / "dsdl" / "ns"), str(out), self.lctx)
         cg, sg = create_default_generators(ns, templates_dir=self.root / "tpl", support_templates_dir=self.root / "sup",
                                            additional_globals={"texts": texts}, post_processors=mk_pps(ppdesc) or None)
@@ -141,8 +141,20 @@ class MultiFile:
                     res.append((name, texts[name], f.read()))
         import shutil
 
-        shutil.rmtree(out, ignore_errors=True)
+        if not keep:
+            shutil.rmtree(out, ignore_errors=True)
         return res
+
+
+def rewrite_variants(rng, chunks):
+    """texts that differ from `chunks` only in what a careless "is the file already up to date?" comparison overlooks: line terminators,
+    trailing white space, a final newline, letter case"""
+    t = "".join(chunks)
+    res = [t.replace("\r\n", "\n").replace("\r", "\n"), t.replace("\r\n", "\n").replace("\n", "\r\n"), t.replace("\n", "\r"), t.rstrip("\r\n"),
+           t + "\n", t.replace(" \n", "\n"), t.replace("x", "X", 1)]
+    res = [x for x in res if x != t]
+    rng.shuffle(res)
+    return [[x] for x in res[:3]]
 
 
 LONG_MARK = "L"  # stands for a run of K non-white-space characters in the core text of a long-line case
@@ -366,6 +378,36 @@ def run(ctx):
                       % (pos + 1, "+".join(order), name, clause), {"multi": True, "texts": texts, "pps": pps, "order": list(order), "name": name, "pos": pos})
     ctx.cov["multi_file_records"] = len(mrecs)
 
+    # 3d. histories: the same paths written again, in place, with a text that differs only in terminators / trailing blanks / final newline / case
+    wrecs, wstim = [], {}
+    for i in range(ctx.pick(60, 600)):
+        first = {}
+        for name in ("A", "B", "support"):
+            ch, p = rand_case(ctx.rng, ctx.rng.choice([6, 14]), ALPHA)
+            first[name] = [ctx.rng.choice(["x\r\n", "x \n", "\n"])] + ch + [ctx.rng.choice(["\n", "\r\n", "x"])]
+        pps = [[], [{"k": "trim"}], [{"k": "limit", "n": 1}], [{"k": "trim"}, {"k": "limit", "n": 2}]][i % 4]
+        outdir = multi.root / ("inplace%d" % i)
+        multi.run(first, pps, ("types", "support"), out=outdir, keep=True)
+        variants = {name: rewrite_variants(ctx.rng, first[name]) for name in first}
+        for k in range(max(len(v) for v in variants.values())):
+            second = {name: (variants[name][k] if k < len(variants[name]) else first[name]) for name in first}
+            last = k + 1 >= max(len(v) for v in variants.values())
+            for pos, (name, chunks, written) in enumerate(multi.run(second, pps, ("types", "support"), out=outdir, keep=not last)):
+                ctx.count()
+                rid = len(wrecs)
+                wrecs.append(record(rid, chunks, pps, written, "rewritten-in-place"))
+                wstim[rid] = (first, second, pps, name)
+                ctx.distinct("rewrite|%s|%s|%s" % (name, ",".join(p["k"] for p in pps), sha(repr(chunks))[:6]))
+    rej = tlc.validate_traces(ctx, "LineBufferTrace", wrecs, batch=3000)
+    for rid, clause in rej.items():
+        first, second, pps, name = wstim[rid]
+        if clause.startswith("harness"):
+            raise MachineryFailure("harness produced an inconsistent rewrite record %r" % (wstim[rid],))
+        ctx.violation("C15|chunk.whole|file-rewritten-in-place|%s" % (",".join(p["k"] for p in pps) or "none"),
+                      "a file regenerated in place (earlier text %r, new text %r) differs from Whole(new text, pps) [%s]" % ("".join(first[name])[:60], "".join(second[name])[:60], clause),
+                      {"rewrite": True, "first": first, "second": second, "pps": pps, "name": name})
+    ctx.cov["rewritten_in_place_records"] = len(wrecs)
+
     # 4. binding self-test: corrupt one recorded field, the T-layer must reject exactly that record
     bad = dict(recs[11])
     bad["out"] = bad["out"] + [120]
@@ -385,6 +427,14 @@ def run(ctx):
 
 
 def replay(ctx, case):
+    if case.get("rewrite"):
+        multi = MultiFile(ctx)
+        outdir = multi.root / "inplace-replay"
+        multi.run(case["first"], case["pps"], ("types", "support"), out=outdir, keep=True)
+        for name, chunks, written in multi.run(case["second"], case["pps"], ("types", "support"), out=outdir):
+            if tlc.validate_traces(ctx, "LineBufferTrace", [record(0, chunks, case["pps"], written, "rewritten-in-place")]):
+                ctx.violation("C15|chunk.whole|file-rewritten-in-place|%s" % (",".join(p["k"] for p in case["pps"]) or "none"), "file %s regenerated in place differs from Whole(new text, pps)" % name, case)
+        return
     if case.get("multi"):
         hit = False
         for pos, (name, chunks, written) in enumerate(MultiFile(ctx).run(case["texts"], case["pps"], case["order"])):
